@@ -11,3 +11,34 @@ pub fn self_test() -> Result<(), String> {
     addr::self_test()?;
     Ok(())
 }
+
+/// Variant tests of the confidential types by pattern matching: oracles and generators must not ask the
+/// library's own predicates (`is_confidential`, `is_explicit`), which are code under test.
+pub trait Variant {
+    fn v_conf(&self) -> bool;
+    fn v_expl(&self) -> bool;
+}
+impl Variant for elements::confidential::Value {
+    fn v_conf(&self) -> bool {
+        matches!(self, elements::confidential::Value::Confidential(_))
+    }
+    fn v_expl(&self) -> bool {
+        matches!(self, elements::confidential::Value::Explicit(_))
+    }
+}
+impl Variant for elements::confidential::Asset {
+    fn v_conf(&self) -> bool {
+        matches!(self, elements::confidential::Asset::Confidential(_))
+    }
+    fn v_expl(&self) -> bool {
+        matches!(self, elements::confidential::Asset::Explicit(_))
+    }
+}
+impl Variant for elements::confidential::Nonce {
+    fn v_conf(&self) -> bool {
+        matches!(self, elements::confidential::Nonce::Confidential(_))
+    }
+    fn v_expl(&self) -> bool {
+        matches!(self, elements::confidential::Nonce::Explicit(_))
+    }
+}
